@@ -35,6 +35,16 @@ fn region(c: &Case) -> Vec<u8> {
     put32(&mut v, 4, c.arch);
     put32(&mut v, 8, c.len);
     put32(&mut v, 12, if c.sum_is_magic { HDR_MAGIC } else { model_checksum(c.magic, c.arch, c.len).wrapping_add(c.sum_delta) });
+    // the tag area is opaque to load(): every other region gets words that mean
+    // something elsewhere (the magic again, an end tag, all-ones) in its first
+    // and/or last tag slot
+    let pats = &mb2_model::encode::PATTERNS;
+    if c.key & 1 == 1 && n >= 24 {
+        v[16..24].copy_from_slice(&pats[(c.key >> 4) as usize % pats.len()]);
+    }
+    if c.key & 2 == 2 && n >= 32 {
+        v[n - 8..n].copy_from_slice(&pats[(c.key >> 8) as usize % pats.len()]);
+    }
     v
 }
 
@@ -81,6 +91,10 @@ pub fn eval(c: &Case, obs: &mut Obs) -> Result<(), String> {
             return Ok(());
         }
     };
+    judge(c, want, &got)
+}
+
+fn judge(c: &Case, want: HdrLoad, got: &Transcript) -> Result<(), String> {
     let ok = match (want, got.get("load")) {
         (HdrLoad::Ok, Some(Val::Txt(s))) if s == "Ok" => got.get("h.length") == Some(&Val::U(c.len as u64)) && got.get("h.verify") == Some(&Val::B(true)),
         (w, Some(Val::Err(e))) => e == w.text(),
@@ -90,6 +104,62 @@ pub fn eval(c: &Case, obs: &mut Obs) -> Result<(), String> {
         Ok(())
     } else {
         Err(format!("magic {:#x} arch {} length {} checksum delta {}: expected {}, got {}", c.magic, c.arch, c.len, c.sum_delta, want.text(), got.render().replace('\n', " ")))
+    }
+}
+
+// --- the same decisions wherever the header lives ------------------------------
+
+fn addr_cases() -> Vec<Case> {
+    let mut v = Vec::new();
+    for (i, (magic, len, sum_delta)) in [(HDR_MAGIC, 24u32, 0u32), (HDR_MAGIC, 16, 0), (HDR_MAGIC, 40, 0), (HDR_MAGIC, 24, 1), (HDR_MAGIC ^ 1, 24, 0), (HDR_MAGIC, 0, 0)].into_iter().enumerate() {
+        for arch in [0u32, 4] {
+            v.push(Case { null: false, magic, arch, len, sum_delta, key: 0xADD0 + 2 * i as u64, place: Place::End, sum_is_magic: false });
+        }
+    }
+    v
+}
+
+fn run_addr(ctx: &Ctx, rep: &mut SubReport) {
+    if ctx.worker != 0 {
+        return;
+    }
+    let mut granted = 0;
+    for addr in sbx::SPECIAL_ADDRS {
+        for c in addr_cases() {
+            let bytes = region(&c);
+            let want = predict_hdr_load(&bytes);
+            match sbx::at_address(addr, &bytes, |p, _| load_transcript(p)) {
+                None => continue,
+                Some(Boxed::Inconclusive(w)) => rep.inconclusive.push(w),
+                Some(Boxed::Crash(s)) => {
+                    rep.violations.push(Violation { sub: "special-addresses".into(), profile: profile_name().into(), message: format!("header at address {addr:#x}: load crashed the process: {s}"), case: json!({"addr": addr, "case": c}) });
+                    return;
+                }
+                Some(Boxed::Done(t)) => {
+                    granted += 1;
+                    rep.evaluations += 1;
+                    rep.nontrivial.insert(addr as u64 ^ fnv(&bytes[..16]));
+                    if let Err(m) = judge(&c, want, &t) {
+                        rep.violations.push(Violation { sub: "special-addresses".into(), profile: profile_name().into(), message: format!("header at address {addr:#x}: {m}"), case: json!({"addr": addr, "case": c}) });
+                        return;
+                    }
+                }
+            }
+        }
+    }
+    rep.notes.push(format!("{granted} loads at special addresses (of {} address x case combinations; the rest could not be mapped)", sbx::SPECIAL_ADDRS.len() * addr_cases().len()));
+    rep.samples.push(json!({"addr": "0x100000000", "expect": "same decision as anywhere else"}));
+}
+
+fn replay_addr(v: &Value) -> Result<(), String> {
+    let addr = v["addr"].as_u64().unwrap_or(0) as usize;
+    let c: Case = serde_json::from_value(v["case"].clone()).map_err(|e| e.to_string())?;
+    let bytes = region(&c);
+    match sbx::at_address(addr, &bytes, |p, _| load_transcript(p)) {
+        None => Err("INCONCLUSIVE: the address could not be mapped".into()),
+        Some(Boxed::Inconclusive(w)) => Err(format!("INCONCLUSIVE: {w}")),
+        Some(Boxed::Crash(s)) => Err(format!("crashed: {s}")),
+        Some(Boxed::Done(t)) => judge(&c, predict_hdr_load(&bytes), &t),
     }
 }
 
@@ -318,7 +388,7 @@ pub fn subs() -> Vec<Box<dyn Sub>> {
     vec![
         Box::new(PropSub::<Case> {
             name: "load",
-            rule: "Multiboot2Header::load on a guarded mapping of max(16, r8(length)) bytes with a defined architecture. Enumerated: null; every length 0..=80 (thorough 256) x both architectures x 11 magics (correct, byte-swapped, 0, other magics, 6 single-bit flips) x checksum {correct, +1, -1, the magic constant itself}; generated: lengths up to 1 MiB, random magics/checksum deltas. Oracle: Null > ShorterThanHeader (<16) > MissingPadding (%8) > MagicNotFound > ChecksumMismatch > Ok, never a panic. Non-trivial = anything but the plain valid 16-byte header; distinct by the four header words",
+            rule: "Multiboot2Header::load on a guarded mapping of max(16, r8(length)) bytes with a defined architecture; the tag area holds markers, in every other region with words that mean something elsewhere (the magic again, an end tag, all-ones, signatures) in its first and/or last slot. Enumerated: null; every length 0..=80 (thorough 256) x both architectures x 11 magics (correct, byte-swapped, 0, other magics, 6 single-bit flips) x checksum {correct, +1, -1, the magic constant itself}; generated: lengths up to 1 MiB, random magics/checksum deltas. Oracle: Null > ShorterThanHeader (<16) > MissingPadding (%8) > MagicNotFound > ChecksumMismatch > Ok, never a panic. Non-trivial = anything but the plain valid 16-byte header; distinct by the four header words",
             profiles: Profiles::Both,
             quick: 4000,
             thorough: 100000,
@@ -337,6 +407,13 @@ pub fn subs() -> Vec<Box<dyn Sub>> {
             enumerate: Some(enumerate_huge),
             enum_exhaustive: false,
             eval: eval_huge,
+        }),
+        Box::new(LoopSub {
+            name: "special-addresses",
+            profiles: Profiles::Both,
+            rule: "Multiboot2Header::load of 12 fixed headers (valid with lengths 16/24/40, wrong checksum, wrong magic, length 0; both architectures) copied to addresses with a special bit pattern: multiples of 4 GiB, straddling the 2 GiB and 4 GiB marks, 1 TiB, the first mappable page, a high user-space address (mmap MAP_FIXED_NOREPLACE; addresses the kernel does not grant are skipped and counted). Oracle: the same decision table as `load`. Non-trivial = every granted load",
+            run: run_addr,
+            replay: replay_addr,
         }),
         Box::new(LoopSub {
             name: "checksum-law",
